@@ -191,6 +191,56 @@ fn check_binary(run: &Run, a: i32, b: i32, local: &mut Option<&mut Local>) {
             json!({"op":"cmp","a":a,"b":b}),
         );
     }
+    // ordering of every other Ord scalar equals ordering of its raw (big-endian) bits
+    {
+        let (ua, ub) = (a as u32, b as u32);
+        let (ta, tb) = (Tag::from_u32(ua), Tag::from_u32(ub));
+        if ta.cmp(&tb) != ua.cmp(&ub) || ta.partial_cmp(&tb) != Some(ua.cmp(&ub)) || (ta == tb) != (ua == ub) {
+            run.violation(
+                "Tag::cmp differs from the ordering of its big-endian bytes",
+                &format!("Tag({ua:#010x}).cmp(Tag({ub:#010x})) = {:?}, raw order {:?}", ta.cmp(&tb), ua.cmp(&ub)),
+                json!({"op":"cmp_tag","a":a,"b":b}),
+            );
+        }
+        let (va, vb) = (Version16Dot16::from_raw(ua.to_be_bytes()), Version16Dot16::from_raw(ub.to_be_bytes()));
+        if va.cmp(&vb) != ua.cmp(&ub) {
+            run.violation("Version16Dot16::cmp differs from raw-bit ordering", "", json!({"op":"cmp_version","a":a,"b":b}));
+        }
+        let (oa, ob) = (Offset32::new(ua), Offset32::new(ub));
+        if oa.cmp(&ob) != ua.cmp(&ub) {
+            run.violation("Offset32::cmp differs from raw-bit ordering", "", json!({"op":"cmp_offset32","a":a,"b":b}));
+        }
+        let (ga, gb) = (GlyphId::new(ua), GlyphId::new(ub));
+        if ga.cmp(&gb) != ua.cmp(&ub) {
+            run.violation("GlyphId::cmp differs from raw-bit ordering", "", json!({"op":"cmp_glyphid","a":a,"b":b}));
+        }
+        let (la, lb) = (LongDateTime::new((a as i64) << 24), LongDateTime::new((b as i64) << 24));
+        if la.cmp(&lb) != a.cmp(&b) {
+            run.violation("LongDateTime::cmp differs from value ordering", "", json!({"op":"cmp_ldt","a":a,"b":b}));
+        }
+        // 16- and 24-bit types on the low bits
+        let (sa, sb) = (a as u16, b as u16);
+        let ord16 = [
+            (GlyphId16::new(sa).cmp(&GlyphId16::new(sb)), sa.cmp(&sb), "GlyphId16"),
+            (NameId::new(sa).cmp(&NameId::new(sb)), sa.cmp(&sb), "NameId"),
+            (Offset16::new(sa).cmp(&Offset16::new(sb)), sa.cmp(&sb), "Offset16"),
+            (UfWord::new(sa).cmp(&UfWord::new(sb)), sa.cmp(&sb), "UfWord"),
+            (FWord::new(sa as i16).cmp(&FWord::new(sb as i16)), (sa as i16).cmp(&(sb as i16)), "FWord"),
+            (F2Dot14::from_bits(sa as i16).cmp(&F2Dot14::from_bits(sb as i16)), (sa as i16).cmp(&(sb as i16)), "F2Dot14"),
+        ];
+        for (got, want, name) in ord16 {
+            if got != want {
+                run.violation(&format!("{name}::cmp differs from raw-bit ordering"), "", json!({"op":"cmp16","type":name,"a":a,"b":b}));
+            }
+        }
+        let (xa, xb) = (ua & 0xFF_FFFF, ub & 0xFF_FFFF);
+        if Uint24::new(xa).cmp(&Uint24::new(xb)) != xa.cmp(&xb)
+            || Offset24::new(Uint24::new(xa)).cmp(&Offset24::new(Uint24::new(xb))) != xa.cmp(&xb)
+            || Int24::new(((xa << 8) as i32) >> 8).cmp(&Int24::new(((xb << 8) as i32) >> 8)) != (((xa << 8) as i32) >> 8).cmp(&(((xb << 8) as i32) >> 8))
+        {
+            run.violation("24-bit type cmp differs from value ordering", "", json!({"op":"cmp24","a":a,"b":b}));
+        }
+    }
     let f26a = F26Dot6::from_bits(a);
     let f26b = F26Dot6::from_bits(b);
     if f26a.cmp(&f26b) != a.cmp(&b) {
